@@ -63,7 +63,9 @@ enum IKind
   I_HIST_DOUBLE
 };
 const int kMaxDigits = 24;  // 4^24 = 2^48: exact in a double
-const char *kKeys[3] = {"k0", "k1", "k2"};
+const int kNKeys      = 4;
+const char *kKeys[kNKeys] = {"k0", "k1", "k2", "k3"};
+const int kAllKeys    = 15;
 const std::string kOverflowKey = "otel.metrics.overflow";
 
 bool is_hist(int k)
@@ -80,13 +82,18 @@ typedef std::map<std::string, std::string> AttrMap;
 AttrMap attrs_of(int64_t id, int mask)
 {
   AttrMap m;
-  for (int k = 0; k < 3; ++k)
+  for (int k = 0; k < kNKeys; ++k)
   {
     int v = (int)((id >> (2 * k)) & 3);
     if (!v || !((mask >> k) & 1))
       continue;
-    m[kKeys[k]] = k == 0 ? "i64:" + std::to_string(v) : k == 1 ? "s:v" + std::to_string(v)
-                                                                : std::string("b:") + (v > 1 ? "1" : "0");
+    // k0: int64, k1: string, k2: bool, k3: double / int64 array / string array by value
+    m[kKeys[k]] = k == 0   ? "i64:" + std::to_string(v)
+                  : k == 1 ? "s:v" + std::to_string(v)
+                  : k == 2 ? std::string("b:") + (v > 1 ? "1" : "0")
+                  : v == 1 ? std::string("d:1.500000")
+                  : v == 2 ? std::string("vi64:[2,3,]")
+                           : std::string("vs:[a,b3,]");
   }
   return m;
 }
@@ -106,6 +113,20 @@ struct CanonOwned
   std::string operator()(uint64_t v) const { return "u64:" + std::to_string(v); }
   std::string operator()(double v) const { return "d:" + std::to_string(v); }
   std::string operator()(const std::string &v) const { return "s:" + v; }
+  std::string operator()(const std::vector<int64_t> &v) const
+  {
+    std::string o = "vi64:[";
+    for (auto e : v)
+      o += std::to_string(e) + ",";
+    return o + "]";
+  }
+  std::string operator()(const std::vector<std::string> &v) const
+  {
+    std::string o = "vs:[";
+    for (auto &e : v)
+      o += e + ",";
+    return o + "]";
+  }
   template <class T>
   std::string operator()(const std::vector<T> &) const
   {
@@ -148,6 +169,8 @@ std::vector<double> bounds_preset(int p)
       return {1e-300, 1, 1e150, 1e300};
     case 5:
       return {0, 5, 10, 25, 50, 75, 100, 250, 500, 1000};
+    case 6:
+      return {0, 1, 2, 3, 4, 5, 6, 7, 8, 9, 10, 20, 30, 40, 50, 100, 1000, 5000, 20000};  // > 15
     default:
       return {0, 5, 10, 25, 50, 75, 100, 250, 500, 750, 1000, 2500, 5000, 7500, 10000};  // SDK default
   }
@@ -392,7 +415,7 @@ struct CallAttrs final : common::KeyValueIterable
   {
     strs.reserve(8);
     std::vector<int> keys;
-    for (int k = 0; k < 3; ++k)
+    for (int k = 0; k < kNKeys; ++k)
       if ((id >> (2 * k)) & 3)
         keys.push_back(k);
     // permutation
@@ -409,7 +432,17 @@ struct CallAttrs final : common::KeyValueIterable
         strs.push_back("v" + std::to_string(v));
         return common::AttributeValue(nostd::string_view(strs.back()));
       }
-      return common::AttributeValue((bool)(v > 1));
+      if (k == 2)
+        return common::AttributeValue((bool)(v > 1));
+      if (v == 1)
+        return common::AttributeValue(1.5);
+      if (v == 2)
+      {
+        static const int64_t arr[2] = {2, 3};
+        return common::AttributeValue(nostd::span<const int64_t>(arr, 2));
+      }
+      static const nostd::string_view sarr[2] = {"a", "b3"};
+      return common::AttributeValue(nostd::span<const nostd::string_view>(sarr, 2));
     };
     // a duplicate of the first key with another value comes first: the later one must win
     if (!keys.empty() && ((order_seed >> 20) & 1))
@@ -605,13 +638,13 @@ void body(const Case &c)
                                        : sdkmet::InstrumentType::kCounter,
                                    is_double(kind) ? sdkmet::InstrumentValueType::kDouble
                                                    : sdkmet::InstrumentValueType::kLong};
-    int mask = (int)c.knob("filter0", 7);
-    if (mask == 7)
+    int mask = (int)c.knob("filter0", kAllKeys);
+    if (mask == kAllKeys)
       w.direct_proc.reset(new sdkmet::DefaultAttributesProcessor);
     else
     {
       std::unordered_map<std::string, bool> allow;
-      for (int k = 0; k < 3; ++k)
+      for (int k = 0; k < kNKeys; ++k)
         if ((mask >> k) & 1)
           allow[kKeys[k]] = true;
       w.direct_proc.reset(new sdkmet::FilteringAttributesProcessor(allow));
@@ -637,14 +670,14 @@ void body(const Case &c)
       std::unique_ptr<sdkmet::InstrumentSelector> is(
           new sdkmet::InstrumentSelector(itype, instr_name(vi), ""));
       std::unique_ptr<sdkmet::MeterSelector> ms(new sdkmet::MeterSelector("m", "", ""));
-      int mask = (int)c.knob(fmt("view%d_filter", v).c_str(), 7);
+      int mask = (int)c.knob(fmt("view%d_filter", v).c_str(), kAllKeys);
       std::unique_ptr<sdkmet::AttributesProcessor> ap;
-      if (mask == 7)
+      if (mask == kAllKeys)
         ap.reset(new sdkmet::DefaultAttributesProcessor);
       else
       {
         std::unordered_map<std::string, bool> allow;
-        for (int k = 0; k < 3; ++k)
+        for (int k = 0; k < kNKeys; ++k)
           if ((mask >> k) & 1)
             allow[kKeys[k]] = true;
         ap.reset(new sdkmet::FilteringAttributesProcessor(allow));
@@ -752,13 +785,13 @@ void check(const Case &c, const vsim::RunResult &)
         Stream s;
         s.instr = i;
         s.view  = v;
-        s.mask  = (int)c.knob(fmt("view%d_filter", v).c_str(), 7);
+        s.mask  = (int)c.knob(fmt("view%d_filter", v).c_str(), kAllKeys);
         s.name  = c.knob(fmt("view%d_named", v).c_str(), 1) ? fmt("view%d", v) : instr_name(i);
         streams.push_back(s);
         any = true;
       }
     if (!any)
-      streams.push_back({instr_name(i), i, direct ? (int)c.knob("filter0", 7) : 7, -1});
+      streams.push_back({instr_name(i), i, direct ? (int)c.knob("filter0", kAllKeys) : kAllKeys, -1});
   }
   // handles: which was the latest created per instrument (duplicate-handle known finding)
   std::vector<int> latest_handle(ninstr, 0);
@@ -1176,7 +1209,7 @@ void generate(const std::string &prop, Rng &wl, Rng &fl, Case &c)
     ninstr  = 1;
     c.set("ninstr", 1);
     c.set("direct_limit", wl.range(2, 6));
-    c.set("filter0", wl.chance(0.5) ? 7 : (int64_t)wl.range(0, 6));
+    c.set("filter0", wl.chance(0.5) ? kAllKeys : (int64_t)wl.range(0, 14));
     stratum = "direct_limit";
   }
   for (int i = 0; i < ninstr; ++i)
@@ -1187,7 +1220,7 @@ void generate(const std::string &prop, Rng &wl, Rng &fl, Case &c)
     else
       kind = (int)wl.below(4);
     c.set(fmt("itype%d", i).c_str(), kind);
-    c.set(fmt("bounds%d", i).c_str(), (int64_t)wl.below(6));
+    c.set(fmt("bounds%d", i).c_str(), (int64_t)wl.below(7));
   }
   if (prop == "C07")
     c.set("wild_values", wl.chance(0.4));
@@ -1203,7 +1236,7 @@ void generate(const std::string &prop, Rng &wl, Rng &fl, Case &c)
       c.set(fmt("view%d_instr", v).c_str(), (int64_t)wl.below(ninstr));
       c.set(fmt("view%d_named", v).c_str(), 1);
       c.set(fmt("view%d_filter", v).c_str(),
-            prop == "C06" ? 7 : (wl.chance(0.3) ? 7 : (int64_t)wl.range(0, 6)));
+            prop == "C06" ? kAllKeys : (wl.chance(0.3) ? kAllKeys : (int64_t)wl.range(0, 14)));
       c.set(fmt("view%d_minmax", v).c_str(), wl.chance(0.8));
     }
     if (nviews)
@@ -1220,7 +1253,7 @@ void generate(const std::string &prop, Rng &wl, Rng &fl, Case &c)
   // recorder tasks
   int nrec = (int)wl.range(1, 2);
   std::vector<int> next_digit(ninstr, 0);
-  int nsets = prop == "C08" ? 64 : 8;
+  int nsets = prop == "C08" ? 256 : 8;
   for (int t = 0; t < nrec; ++t)
   {
     TaskProg p;
@@ -1242,7 +1275,7 @@ void generate(const std::string &prop, Rng &wl, Rng &fl, Case &c)
       if (next_digit[i] >= kMaxDigits)
         continue;
       int64_t aid = prop == "C08" ? (int64_t)wl.below(nsets)
-                                  : (int64_t)(wl.chance(0.2) ? 0 : wl.below(64));
+                                  : (int64_t)(wl.chance(0.2) ? 0 : wl.below(256));
       if (prop == "C06" && wl.chance(0.5))
         aid &= 0x0f;  // fewer distinct sets: more merging into one series
       p.ops.push_back({OP_ADD, i, aid, next_digit[i]++, (int64_t)(wl.next() >> 2)});
@@ -1323,8 +1356,8 @@ const EngineDesc g_engine = {
     "one run = MeterProvider with 1-3 pull readers of mixed temporality (each collected from its "
     "own task, plus one final quiescent collection), 0-2 named views (attribute allow-lists, "
     "histogram boundaries, min/max), 1-3 instruments (counter / up-down counter / histogram, "
-    "long / double), 1-2 recorder tasks x 2-20 operations with attribute sets over 3 keys x 3 "
-    "values passed in a per-call key order with overwritten duplicates; counter measurement k "
+    "long / double), 1-2 recorder tasks x 2-20 operations with attribute sets over 4 keys x 3 "
+    "values (int64, string, bool, double, int64 array, string array) passed in a per-call key order with overwritten duplicates; counter measurement k "
     "adds +-4^k so each reported sum decodes into the measurements it contains; C08 also drives "
     "SyncMetricStorage directly with limits 2-6; a minority stratum creates a second handle for "
     "an instrument (known finding); scheduler faults: task stalls and system clock jumps; "
